@@ -292,6 +292,8 @@ class WorkflowFunctions(Unit):
             "succeeded()/failed()/completed()/result() read the status of the current task's latest record in the serialised state (falling back to the nearest ancestor route) and the result passed for this completion: conditions are evaluated on the predecessor's actual status and result"},
         "C01.make_task_context.actuals": {"props": ["C01", "C06", "C16"], "text":
             "the context for conditions and publishes is the task's inbound context plus __current_task = {id, route, result} and __state = the serialised workflow state; the stored contexts are not touched"},
+        "C16.render.item_exact": {"props": ["C16", "C12"], "text":
+            "with the named form `x in <expr>` every item - whatever JSON value it is, a JSON object included - is bound unchanged to x; with `x, y in <expr>` list items are unpacked positionally"},
         "C12.render.item_ids": {"props": ["C12"], "text":
             "TaskSpec.render yields one action per item with item_id = position (0..n-1) in item order, none for an empty list, and rejects a non-list"},
     }
@@ -352,6 +354,27 @@ class WorkflowFunctions(Unit):
                     ok = raised is None and [a.get("item_id") for a in actions] == list(range(len(items))) \
                         and [s_[1] for s_ in seen if s_[0] == "core.echo"] == list(items)
                 ctx.oblige("C12.render.item_ids", ok, None, {"items": repr(items)})
+            for items, form, want in (
+                    ([{"name": "vm1", "region": "eu"}, "s", 3, None, ["l"]], "x in <% ctx(xs) %>", None),
+                    ([["a", 1], ["b", 2]], "k, v in <% ctx(xs) %>", [{"k": "a", "v": 1}, {"k": "b", "v": 2}])):
+                spec = models.TaskSpec({"action": "core.echo", "input": {"m": "<% item() %>"}, "with": {"items": form}})
+                seen = []
+
+                def evaluate2(eng, statement, data=None, items=items, seen=seen):
+                    if statement == "<% ctx(xs) %>":
+                        return items
+                    if statement == "core.echo":
+                        seen.append(data.get("__current_item") if isinstance(data, dict) else None)
+                    return statement
+                e.overrides[expr_base.evaluate] = evaluate2
+                raised = None
+                try:
+                    e.call(models.TaskSpec.render, [spec, {"xs": 1}], {})
+                except Raised as rr:
+                    raised = rr
+                if want is None:
+                    want = [{"x": it} if not isinstance(it, (list, tuple)) else dict(zip(["x"], it)) for it in items]
+                ctx.oblige("C16.render.item_exact", raised is None and seen == want, None, {"form": form, "items": repr(items), "got": repr(seen)})
             ctx.canary()
 
         ctx.eng.explore(thunk)
